@@ -82,6 +82,17 @@ def make_worker(tier):
                         tree = "exception %s" % type(e).__name__
                     if tree != base[1]:
                         S.violation("C07.file", "C07.file/get_fcp-differs-from-string/" + label, {"text": base[0]}, expected=base[1], actual=tree)
+                    # the same file saved with CRLF line endings (what an editor on another platform writes)
+                    with open(p, "w", newline="") as f:
+                        f.write(base[0].replace("\n", "\r\n"))
+                    S.count("executions")
+                    try:
+                        r = get_fcp(p, Logger({}))
+                        tree = r.unwrap().to_dict() if r.is_ok() else repr(r.err())[:200]
+                    except Exception as e:  # noqa
+                        tree = "exception %s" % type(e).__name__
+                    if tree != base[1]:
+                        S.violation("C07.file", "C07.file/crlf-file-differs/" + label, {"text": base[0].replace("\n", "\r\n")}, expected=base[1], actual=tree)
             if len(S.samples) < 2:
                 S.sample({"label": label, "text": print_schema(decls, "compact")})
         return S
